@@ -1,14 +1,16 @@
 #!/venv/bin/python
 """Regression over the confirmed seeded changes: for each /verif/seeded/<id>/ apply patch.diff to /repo, run the quick check
 of its property, revert.  Prints one line per seed; exit 1 if a seed is no longer caught.  (/repo must be clean.)
-usage: tools/reseed.py [seed ids ...]"""
+usage: tools/reseed.py [--seeds=0,1,2] [seed ids ...]   (--seeds: run each check with several VERIF_SEED values)"""
 import json, os, subprocess, sys
 V = os.path.dirname(os.path.dirname(os.path.abspath(__file__)))
 def sh(cmd, **kw):
     return subprocess.run(cmd, shell=True, capture_output=True, text=True, **kw)
 if sh("git -C /repo status --porcelain").stdout.strip():
     print("/repo is not clean"); sys.exit(2)
-ids = sys.argv[1:] or sorted(os.listdir(os.path.join(V, "seeded")))
+args = [a for a in sys.argv[1:] if not a.startswith("--seeds=")]
+seeds = next((a.split("=")[1].split(",") for a in sys.argv[1:] if a.startswith("--seeds=")), [None])
+ids = args or sorted(os.listdir(os.path.join(V, "seeded")))
 missed = []
 for sid in ids:
     d = os.path.join(V, "seeded", sid)
@@ -16,15 +18,18 @@ for sid in ids:
     if sh(f"git -C /repo apply {d}/patch.diff").returncode != 0:
         print(sid, "patch does not apply"); missed.append(sid); continue
     try:
-        r = sh(f"./check {pid}", cwd=V)
+        for sd in seeds:
+            env = dict(os.environ, VERIF_SEED=sd) if sd is not None else None
+            r = sh(f"./check {pid}", cwd=V, env=env)
+            caught = r.returncode == 1 and "VIOLATION property=" + pid in r.stdout
+            nofail = "no-failing-input-found" in r.stdout
+            print(sid, "caught" + (" (no-failing-input-found)" if nofail else "") if caught else f"MISSED rc={r.returncode}", "|",
+                  r.stdout.strip().splitlines()[-1][:160], flush=True)
+            if not caught:
+                missed.append(sid if sd is None else f"{sid}@seed{sd}")
     finally:
         sh("git -C /repo checkout -- .")
         sh(f"rm -rf {V}/replays")
-    caught = r.returncode == 1 and "VIOLATION property=" + pid in r.stdout
-    nofail = "no-failing-input-found" in r.stdout
-    print(sid, "caught" + (" (no-failing-input-found)" if nofail else "") if caught else f"MISSED rc={r.returncode}", "|", r.stdout.strip().splitlines()[-1][:160])
-    if not caught:
-        missed.append(sid)
 sh("git -C /repo checkout -- .")
 print("missed:", missed)
 sys.exit(1 if missed else 0)
